@@ -364,6 +364,8 @@ def r10_or_pattern_mut(src, item, ed, opts):
     for sp in opts.get("or_split", []):
         k = sp["n"]
         if k >= len(arms):
+            if sp.get("optional"):
+                continue  # no or-pattern left to split: the arms are judged as they stand
             raise LostAnchor(f"or-pattern arm #{k} of {item['path']}")
         n = arms[k]
         body = src.text(*n["body"])
